@@ -157,11 +157,147 @@ func c16KeyFacts(cp *Pkg) []Fact {
 	return out
 }
 
+// c16CallSites walks a function body and classifies the calls to `callee`: at the top level of
+// the body (top), nested in some compound statement but not behind a test of skipPreHandler
+// (nested), or reachable only for tasks whose skipPreHandler is false (guarded: inside an `if`
+// whose condition mentions skipPreHandler, or after such an `if` that ends in continue / return /
+// break in the same block).
+func c16CallSites(body *ast.BlockStmt, callee string) (top, nested, guarded int) {
+	mentions := func(e ast.Expr) bool { return e != nil && strings.Contains(exprString(e), "skipPreHandler") }
+	exits := func(b *ast.BlockStmt) bool {
+		if b == nil || len(b.List) == 0 {
+			return false
+		}
+		switch v := b.List[len(b.List)-1].(type) {
+		case *ast.BranchStmt:
+			return v.Tok == token.CONTINUE || v.Tok == token.BREAK
+		case *ast.ReturnStmt:
+			return true
+		}
+		return false
+	}
+	count := func(n ast.Node, g bool, depth int) {
+		ast.Inspect(n, func(x ast.Node) bool {
+			if c, ok := x.(*ast.CallExpr); ok {
+				if id, ok := c.Fun.(*ast.Ident); ok && id.Name == callee {
+					switch {
+					case g:
+						guarded++
+					case depth == 0:
+						top++
+					default:
+						nested++
+					}
+				}
+			}
+			return true
+		})
+	}
+	var walk func(list []ast.Stmt, g bool, depth int)
+	walk = func(list []ast.Stmt, g bool, depth int) {
+		for _, st := range list {
+			switch v := st.(type) {
+			case *ast.IfStmt:
+				gi := g || mentions(v.Cond)
+				if v.Init != nil {
+					count(v.Init, g, depth)
+				}
+				count(v.Cond, g, depth)
+				walk(v.Body.List, gi, depth+1)
+				switch e := v.Else.(type) {
+				case *ast.BlockStmt:
+					walk(e.List, gi, depth+1)
+				case *ast.IfStmt:
+					walk([]ast.Stmt{e}, gi, depth+1)
+				}
+				if mentions(v.Cond) && exits(v.Body) {
+					g = true // what follows in this block is skipped for the tested tasks
+				}
+			case *ast.ForStmt:
+				walk(v.Body.List, g, depth+1)
+			case *ast.RangeStmt:
+				walk(v.Body.List, g, depth+1)
+			case *ast.BlockStmt:
+				walk(v.List, g, depth+1)
+			case *ast.DeferStmt, *ast.GoStmt:
+				count(st, g, depth+1)
+			default:
+				count(st, g, depth)
+			}
+		}
+	}
+	walk(body.List, false, 0)
+	return
+}
+
+// c16ResumeFact: does a task restored from a checkpoint with skipPreHandler (the task of a
+// nested-graph node whose inner node had interrupted) get its node callbacks like every other
+// task?  true: the package calls initNodeCallbacks exactly once, as a top-level statement of
+// taskManager.executor `X := initNodeCallbacks(currentTask.ctx, …)`, and the node is run by a
+// top-level `… = t.runWrapper(X, currentTask.call.action, …)`.  false: some call of
+// initNodeCallbacks is only reached by tasks whose skipPreHandler is false.  Else unknown.
+func c16ResumeFact(cp *Pkg) Fact {
+	const name = "restoredTaskGetsNodeCallbacks"
+	top, nested, guarded, total := 0, 0, 0, 0
+	whereGuarded := ""
+	for _, f := range cp.Funcs() {
+		if f.Decl.Body == nil || f.Decl.Name.Name == "initNodeCallbacks" {
+			continue
+		}
+		t, n, g := c16CallSites(f.Decl.Body, "initNodeCallbacks")
+		total += t + n + g
+		if g > 0 {
+			guarded += g
+			whereGuarded = "compose/" + f.File + ": func " + f.Decl.Name.Name
+		}
+		if recvName(f.Decl) == "taskManager" && f.Decl.Name.Name == "executor" {
+			top, nested = t, n
+		}
+	}
+	ex, file := cp.Func("taskManager", "executor")
+	if ex == nil || ex.Body == nil {
+		return unknownFact(name, "Bool", "false", "compose/graph_manager.go", "method taskManager.executor not found")
+	}
+	where := "compose/" + file + ": func (taskManager) executor"
+	if guarded > 0 {
+		return boolFact(name, false, whereGuarded+": initNodeCallbacks is only reached by tasks whose skipPreHandler is false")
+	}
+	if total != 1 || top != 1 || nested != 0 {
+		return unknownFact(name, "Bool", "false", where, "initNodeCallbacks is not called exactly once, at the top level of taskManager.executor")
+	}
+	ctxVar, runs := "", false
+	for _, st := range ex.Body.List {
+		as, ok := st.(*ast.AssignStmt)
+		if !ok || len(as.Rhs) != 1 {
+			continue
+		}
+		ce, ok := as.Rhs[0].(*ast.CallExpr)
+		if !ok {
+			continue
+		}
+		switch exprString(ce.Fun) {
+		case "initNodeCallbacks":
+			if len(as.Lhs) == 1 && len(ce.Args) >= 2 && exprString(ce.Args[0]) == "currentTask.ctx" && exprString(ce.Args[1]) == "currentTask.nodeKey" {
+				ctxVar = exprString(as.Lhs[0])
+			}
+		case "t.runWrapper":
+			if ctxVar != "" && len(ce.Args) >= 2 && exprString(ce.Args[0]) == ctxVar && exprString(ce.Args[1]) == "currentTask.call.action" {
+				runs = true
+			}
+		}
+	}
+	if ctxVar == "" || !runs {
+		return unknownFact(name, "Bool", "false", where, "the node is not run with the context initNodeCallbacks(currentTask.ctx, currentTask.nodeKey, …) returns")
+	}
+	return boolFact(name, true, where+": every task – restored or new – is run with "+ctxVar+" := initNodeCallbacks(currentTask.ctx, currentTask.nodeKey, …, t.opts...)")
+}
+
 func factsC16(r *Repo) []Fact {
 	cp := r.Pkg("compose")
 	var out []Fact
 	out = append(out, transC16(r)) // gotrans phase 6: Gen/TransC16.lean (trans_c16.go)
 	out = append(out, c16KeyFacts(cp)...)
+	out = append(out, c16ResumeFact(cp))
 	shape := map[string]bool{}
 	shapeOrder := []string{}
 	setShape := func(name string, v bool) {
